@@ -335,11 +335,11 @@ def pct_of(run, F):
     rows = {(frozenset(c for c in cs if 'method' in c or 'exact' in c or 'total' in c), l) for cs, l, ef in t}
     want = {
         (frozenset({'(0 == total_count)'}), 'NULL'),
-        (frozenset({'!(0 == total_count)', 'method is PercentileOfMethod::Strict'}), '(less_than_count / total_count)'),
-        (frozenset({'!(0 == total_count)', 'method is PercentileOfMethod::Weak'}), '(less_equal_count / total_count)'),
-        (frozenset({'!(0 == total_count)', 'method is PercentileOfMethod::Rank', '!(1 < exact_match_count)'}),
+        (frozenset({'(0 != total_count)', 'method is PercentileOfMethod::Strict'}), '(less_than_count / total_count)'),
+        (frozenset({'(0 != total_count)', 'method is PercentileOfMethod::Weak'}), '(less_equal_count / total_count)'),
+        (frozenset({'(0 != total_count)', 'method is PercentileOfMethod::Rank', '(exact_match_count <= 1)'}),
          '((exact_match_count + less_than_count) / total_count)'),
-        (frozenset({'!(0 == total_count)', 'method is PercentileOfMethod::Rank', '(1 < exact_match_count)'}),
+        (frozenset({'(0 != total_count)', 'method is PercentileOfMethod::Rank', '(1 < exact_match_count)'}),
          '(((rank_end + rank_start) * 0.5) / total_count)'),
     }
     lets = ('let less_equal_count = (less_than_count + exact_match_count);' in s and
